@@ -58,7 +58,10 @@ def one_case(ctx, T, sa, sb, na, nb, opn):
             try:
                 a, _ = programs.evaluate(T, sa, "array", ka, nul, na)
                 b, _ = programs.evaluate(T, sb, "array", kb, nul, nb)
-            except (programs.Degenerate, programs.EvalError):
+            except programs.Degenerate:
+                return False
+            except programs.EvalError:
+                ctx.count("operands that could not be built")
                 return False
             exc = None
             try:
